@@ -10,6 +10,14 @@
    MODEL FILE: executable definitions only. *)
 From Ctg Require Export Base Net.
 
+Fixpoint tree_eqb (a b : tree) : bool :=
+  match a, b with
+  | Leaf i, Leaf j => Nat.eqb i j
+  | Node l r, Node l' r' => tree_eqb l l' && tree_eqb r r'
+  | _, _ => false
+  end.
+#[export] Instance Eqb_tree : Eqb tree := tree_eqb.
+
 Definition step := list nat.
 Definition path := list step.
 Definition nset := list nat.       (* a frozenset[int] as a list of leaf numbers *)
